@@ -6,6 +6,7 @@ package main
 
 import (
 	"bytes"
+	"errors"
 	"fmt"
 	"io"
 	"strings"
@@ -250,6 +251,7 @@ type fragReader struct {
 	lastZero  bool
 	r         *vlib.Rand
 	calls     int64
+	endErr    error // what the end of data reports (nil = io.EOF); fault strata set a non-EOF error
 }
 
 func (f *fragReader) Read(p []byte) (int, error) {
@@ -257,8 +259,12 @@ func (f *fragReader) Read(p []byte) (int, error) {
 	if len(p) == 0 {
 		return 0, nil
 	}
+	end := io.EOF
+	if f.endErr != nil {
+		end = f.endErr
+	}
 	if f.off >= len(f.data) {
-		return 0, io.EOF
+		return 0, end
 	}
 	if f.zeroReads && !f.lastZero && f.r.Chance(1, 5) {
 		f.lastZero = true
@@ -285,7 +291,7 @@ func (f *fragReader) Read(p []byte) (int, error) {
 	copy(p, f.data[f.off:f.off+n])
 	f.off += n
 	if f.eofWith && f.off == len(f.data) {
-		return n, io.EOF
+		return n, end
 	}
 	return n, nil
 }
@@ -433,8 +439,7 @@ func describeMismatch(b, in []byte, off int) string {
 // checkBounds evaluates the size clauses over a complete chunk-length
 // sequence. featureClass prefixes the class with the trigger feature of the
 // known defect so that it cannot mask anything else.
-func checkBounds(k *vlib.Case, sp spec, lens []int, fr *fragReader) {
-	pre := "" // (rabin-N with N<48 used to get its own class prefix; the parser rejects it since 45fc115)
+func checkBounds(k *vlib.Case, sp spec, lens []int, fr *fragReader, pre string) {
 	for i, l := range lens {
 		last := i == len(lens)-1
 		if l > chunk.ChunkSizeLimit {
@@ -518,7 +523,7 @@ func oneCase(stratum string, big bool) func(k *vlib.Case) {
 				continue
 			}
 			completed++
-			checkBounds(k, sp, lens, fr)
+			checkBounds(k, sp, lens, fr, "")
 			if i == 0 {
 				ref = lens
 				k.Logf("  -> %d chunks %s", len(lens), fmtLens(lens))
@@ -532,6 +537,190 @@ func oneCase(stratum string, big bool) func(k *vlib.Case) {
 		if completed >= 2 && sp.max > 0 && len(in.data) >= 3*sp.max {
 			k.Nontrivial()
 		}
+	}
+}
+
+// ---------------------------------------------------------------- reader faults
+
+var errInjected = errors.New("injected read fault: input/output error")
+
+// faultCase: the reader fails with a non-EOF error after k bytes of the
+// intended input (k = 0, inside a chunk, on a chunk boundary, in the last
+// chunk, random), alone or together with the last good bytes, under a chosen
+// fragmentation. Losslessness leaves two acceptable ends of the chunk stream:
+// a non-EOF error, or io.EOF after the *complete* intended input. io.EOF after
+// a proper prefix is a silently truncated stream.
+func faultCase(k *vlib.Case) {
+	r := k.R
+	stratum := vlib.Pick(r, []string{"size", "size", "size", "default", "rabin", "rabin-avg", "rabin-mam", "rabin-mam", "buzhash"})
+	sp := genSpec(r, stratum)
+	n := genLen(r, sp, false)
+	if n > 1<<20+1<<19 {
+		n = 1<<20 + 1<<19 - r.Intn(3)
+	}
+	if n == 0 && r.Chance(3, 4) {
+		n = r.Range(1, 2*sp.max+1)
+		if n > 1<<20 {
+			n = 1 << 20
+		}
+	}
+	in := genInput(r, n)
+	k.Logf("spec %q form=%s promised min=%d max=%d", sp.s, sp.form, sp.min, sp.max)
+	k.Logf("intended input kind=%s len=%d", in.kind, len(in.data))
+	// chunk boundaries of the healthy stream
+	ref, ok := observe(k, sp, in.data, &fragReader{data: in.data, mode: "plain"}, "")
+	if !ok {
+		return
+	}
+	at, where := 0, "offset-0"
+	if len(ref) > 0 {
+		var bounds []int
+		o := 0
+		for _, l := range ref {
+			o += l
+			bounds = append(bounds, o)
+		}
+		switch r.Intn(7) {
+		case 0:
+		case 1, 2:
+			ci := r.Intn(len(ref))
+			start := bounds[ci] - ref[ci]
+			at, where = start+r.Intn(ref[ci]), "inside-chunk"
+			if at == start && ref[ci] > 1 {
+				at++
+			}
+		case 3:
+			at, where = bounds[r.Intn(len(bounds))], "chunk-boundary"
+		case 4:
+			last := len(ref) - 1
+			at, where = bounds[last]-ref[last]+r.Intn(ref[last]), "last-chunk"
+			if at == bounds[last]-ref[last] && ref[last] > 1 {
+				at++
+			}
+		case 5:
+			at, where = len(in.data), "at-end(error instead of EOF)"
+		default:
+			at, where = r.Intn(len(in.data)+1), "random"
+		}
+	}
+	fr := &fragReader{data: in.data[:at], r: r.Fork("fault-reader"), endErr: errInjected}
+	switch r.Intn(4) {
+	case 0:
+		fr.mode = "plain"
+	case 1:
+		fr.mode, fr.maxShort = "short", vlib.Pick(r, []int{3, 100, 4096, 200000})
+	case 2:
+		fr.mode = "tiny-then-big"
+	default:
+		fr.mode = "one"
+		if at > 300000 {
+			fr.mode, fr.maxShort = "short", 64
+		}
+	}
+	fr.eofWith = r.Chance(1, 3) // here: the *error* comes together with the last good bytes
+	k.Logf("reader %s fails with a non-EOF error after %d bytes (%s)", fr, at, where)
+	s, err := chunk.FromString(fr, sp.s)
+	if err != nil {
+		return
+	}
+	off, chunks := 0, 0
+	for step := 0; ; step++ {
+		if step > len(in.data)+2 {
+			k.Fail("no-progress/fault", "terminates within len+2 NextBytes calls", "an error", fmt.Sprintf("%d calls", step))
+			return
+		}
+		b, err := s.NextBytes()
+		if err != nil {
+			k.C.Count("fault_runs", 1)
+			if at < len(in.data) {
+				k.Nontrivial()
+			}
+			if err != io.EOF {
+				k.C.Count("fault_runs_surfaced_error", 1)
+				k.Logf("  -> %d chunks (%d bytes), then error: %v", chunks, off, err)
+				return
+			}
+			if off == len(in.data) {
+				k.C.Count("fault_runs_complete_then_eof", 1)
+				return
+			}
+			k.Fail("read-error-swallowed/"+sp.form, "a read error is surfaced, or the complete input is delivered, before io.EOF",
+				fmt.Sprintf("non-EOF error (reader failed after %d of %d bytes)", at, len(in.data)),
+				fmt.Sprintf("%d chunks = %d bytes, then a clean io.EOF; fault %s, reader %s", chunks, off, where, fr))
+			return
+		}
+		if len(b) == 0 {
+			k.Fail("empty-chunk/fault", "no chunk is empty", "len>0", fmt.Sprintf("empty chunk at offset %d", off))
+			return
+		}
+		if off+len(b) > len(in.data) || !bytes.Equal(b, in.data[off:off+len(b)]) {
+			k.Fail("content/fault", "emitted chunks are a prefix of the input", fmt.Sprintf("input[%d:%d]", off, off+len(b)), describeMismatch(b, in.data, off))
+			return
+		}
+		off += len(b)
+		chunks++
+	}
+}
+
+// ---------------------------------------------------------------- DefaultBlockSize
+
+// defaultSizeCase: chunk.DefaultBlockSize is documented as modifiable ("to
+// change the default for all subsequent chunker operations"). The case sets it
+// for its duration (cases run sequentially in the child; restored by defer)
+// and checks that the "" and "default" specs cut exactly that size, i.e. the
+// same boundaries as size-<value>.
+func defaultSizeCase(k *vlib.Case) {
+	r := k.R
+	v := vlib.Pick(r, []int{1, 16, 1000, 1024, 4096, 65536, 100000, 131072, 262143, 262145, 524288, 1 << 20})
+	if r.Chance(1, 4) {
+		v = r.Range(1, 1<<20)
+	}
+	old := chunk.DefaultBlockSize
+	chunk.DefaultBlockSize = int64(v)
+	defer func() { chunk.DefaultBlockSize = old }()
+	name := vlib.Pick(r, []string{"", "default"})
+	sp := spec{s: name, form: "default", min: v, max: v}
+	n := genLen(r, sp, false)
+	if r.Chance(1, 2) {
+		n = 3*v + r.Intn(2*v+1)
+	}
+	if lim := v * 60000; n > lim {
+		n = lim
+	}
+	if n > 3<<20+1<<19 {
+		n = 3<<20 + 1<<19
+	}
+	in := genInput(r, n)
+	k.Logf("chunk.DefaultBlockSize=%d (was %d); spec %q", v, old, name)
+	k.Logf("input kind=%s len=%d", in.kind, len(in.data))
+	fr := &fragReader{data: in.data, mode: "plain"}
+	lens, ok := observe(k, sp, in.data, fr, "")
+	if !ok {
+		return
+	}
+	k.Logf("  -> %d chunks %s", len(lens), fmtLens(lens))
+	checkBounds(k, sp, lens, fr, "default-blocksize/")
+	fr2 := &fragReader{data: in.data, mode: "plain"}
+	sz := sizeSpec(v)
+	lens2, ok := observe(k, sz, in.data, fr2, "")
+	if ok && !sameInts(lens, lens2) {
+		k.Fail("default-blocksize/differs-from-size-N", "\"default\" cuts like size-<DefaultBlockSize>", sz.s+": "+fmtLens(lens2), fmt.Sprintf("%q: %s; first difference %s", name, fmtLens(lens), firstDiff(lens2, lens)))
+	}
+	// DefaultSplitter(r) must agree as well
+	ds := chunk.DefaultSplitter(bytes.NewReader(in.data))
+	var lens3 []int
+	for len(lens3) <= len(in.data)+1 {
+		b, err := ds.NextBytes()
+		if err != nil {
+			break
+		}
+		lens3 = append(lens3, len(b))
+	}
+	if !sameInts(lens, lens3) {
+		k.Fail("default-blocksize/differs-from-DefaultSplitter", "FromString(\"default\") cuts like DefaultSplitter", "DefaultSplitter: "+fmtLens(lens3), fmt.Sprintf("%q: %s", name, fmtLens(lens)))
+	}
+	if len(in.data) >= 3*v {
+		k.Nontrivial()
 	}
 }
 
@@ -646,7 +835,7 @@ func rejectCase(mode string) func(k *vlib.Case) {
 }
 
 func run(c *vlib.Ctx) {
-	c.Rule("case = (spec string, input, 3-5 readers). Specs from a grammar over every documented form: ''/default, size-N, rabin, rabin-N (N>=48 in clean strata; N<48 only in stratum rabin-lt48), rabin-min-avg-max with/without labels, buzhash, with N on a boundary grid (1,15..17,47,48,ChunkSizeLimit-1/+0, rabin-1397930/1) or random; promised min/max computed by the harness from the documented form. Inputs random/constant/periodic/random+runs/text with lengths 0,1,min±1,max±1,k*max±1,3max..8max (<=3 MiB, big strata <=6.5 MiB). Readers: plain, 1-byte, random short reads, tiny-then-big, io.EOF together with the last bytes, interspersed (0,nil). distinct = FNV of spec+input descriptor+reader list+observed boundaries; non-trivial = input >= 3*max of the spec and >=2 fragmentations ran to completion (reject stratum: parser returned).")
+	c.Rule("case = (spec string, input, 3-5 readers). Specs from a grammar over every documented form: ''/default, size-N, rabin, rabin-N (N>=48 in clean strata; N<48 only in stratum rabin-lt48), rabin-min-avg-max with/without labels, buzhash, with N on a boundary grid (1,15..17,47,48,ChunkSizeLimit-1/+0, rabin-1397930/1) or random; promised min/max computed by the harness from the documented form. Inputs random/constant/periodic/random+runs/text with lengths 0,1,min±1,max±1,k*max±1,3max..8max (<=3 MiB, big strata <=6.5 MiB). Readers: plain, 1-byte, random short reads, tiny-then-big, io.EOF together with the last bytes, interspersed (0,nil). distinct = FNV of spec+input descriptor+reader list+observed boundaries; non-trivial = input >= 3*max of the spec and >=2 fragmentations ran to completion (reject stratum: parser returned). Stratum fault: a spec of every splitter kind (size, default, rabin, rabin-N, rabin-min-avg-max, buzhash), the reader returns a non-EOF error after k bytes (k = 0, inside a chunk, chunk boundary, last chunk, at end, random; alone or with the last bytes; plain/short/1-byte fragmentation); acceptable = non-EOF error surfaced, or complete input then io.EOF; non-trivial = k < len(input). Stratum default-blocksize: chunk.DefaultBlockSize is set to 1..1 MiB for the duration of the case (sequential, restored) and ''/default must cut exactly that size, like size-<value> and DefaultSplitter.")
 	// thorough counts are for a build without -race; the race detector makes
 	// this single-goroutine byte-loop workload ~40x more expensive (sync.Pool is
 	// disabled, 512 KiB buffers are re-allocated per splitter), so under -race
@@ -673,4 +862,6 @@ func run(c *vlib.Ctx) {
 	c.Cases("reject", n(60, 600), rejectCase("grid"))
 	c.Cases("reject-limit", n(24, 60), rejectCase("limit"))
 	c.Cases("reject-overflow", n(4, 12), rejectCase("overflow"))
+	c.Cases("fault", n(140, 1400), faultCase)
+	c.Cases("default-blocksize", n(40, 400), defaultSizeCase)
 }
